@@ -51,8 +51,9 @@ Definition trees_equiv (a b : list tree) : bool :=
 
 Definition post_eqb (m : outcome * dict * dict) (o : outcome * tree * tree * bool) : bool :=
   let '(mo, m1, m2) := m in
-  let '(oo, o1, o2, _) := o in
-  outcome_eqb mo oo && tree_eqb (Node m1) o1 && tree_eqb (Node m2) o2.
+  let '(oo, o1, o2, intact) := o in
+  (* the pure model shares nothing and mutates no source: its flag is [true] *)
+  outcome_eqb mo oo && tree_eqb (Node m1) o1 && tree_eqb (Node m2) o2 && intact.
 
 Fixpoint aborted_at (tr : list (outcome * dict * tree)) (n : nat) : option nat :=
   match tr with
@@ -73,7 +74,8 @@ Definition corr_cfg (c_fs : fsys) (c_init : init_args) (c_pre : list sop) (c_int
           | (_, OErr e) => match c_obs with OCloneErr e' => err_eqb e e' | _ => false end
           | (cl, _) =>
               match c_obs with
-              | OCloned lo lc vo vc _ post =>
+              | OCloned lo lc vo vc intact post =>
+                  intact &&
                   trees_equiv (levels10 (s_cfg so)) lo && trees_equiv (levels10 cl) lc &&
                   tree_eqb (Node (c_cache (s_cfg so))) vo && tree_eqb (Node (c_cache cl)) vc &&
                   all2 post_eqb (run_post c_fs so (sstart cl) c_post) post
